@@ -244,7 +244,10 @@ def compile_plan(plan, world, root):
                     parts.append("%s=%d" % (k, v))
             lines.append("stat %d %s" % (ino(p), " ".join(parts)))
     for f in plan.get("fail", []):
-        lines.append("fail %s %d %d %d" % (f["call"], ino(f["path"]), ERRNO[f["errno"]], f.get("arg", 0)))
+        arg = f.get("arg", 0)
+        if f["call"] == "readdir" and f.get("then_end"):
+            arg = -arg - 1  # the error ends the listing: entries behind it are never delivered
+        lines.append("fail %s %d %d %d" % (f["call"], ino(f["path"]), ERRNO[f["errno"]], arg))
     for m in plan.get("mutate", []):
         lines.append("mutate %s %d %d %s %s %d" % (m["call"], ino(m["path"]), m.get("nth", 0), m["action"],
                                                    penc(os.path.join(root, m["target"])), m.get("arg", 0)))
